@@ -37,6 +37,9 @@ Verdict ==
   [] Ev.k = "utc" ->
          Viol("UTC_OFFSET", Within(ObsMs(Ev), FromInt(OffsetMs(Ev.y, Ev.m)), MsTol))
     \cup Viol("UTC_READBACK", ReadBackOK(Ev))
+    \* enforced everywhere, also in the last minute of a leap-second day (known finding: one second early there)
+    \cup Viol("UTC_READBACK_COARSE", FieldsOK(Ev) /\ Within(Instant(Ev.rb[1], Ev.rb[2], Ev.rb[3], Ev.rb[4], Ev.rb[5], Ev.rbs),
+                                                           Instant(Ev.y, Ev.m, Ev.d, Ev.h, Ev.mi, FromInt(Ev.s)), Dec(15, 1)))
   [] Ev.k = "ovr" ->
          Viol("OVERRIDE_OFFSET", Within(ObsMs(Ev), FromInt(OverrideMs(Ev.y, Ev.kk)), MsTol))
     \cup Viol("OVERRIDE_READBACK", ReadBackOK(Ev))
